@@ -156,7 +156,9 @@ func runTar(ctx context.Context, opt tarOptions, args []string) error {
 		return err
 	}
 
-	index.Index.FeatureFlags |= desync.TarFeatureFlags
+	// TarFeatureFlags includes the SHA512/256 flag. Leave the digest flag as set
+	// by ChunkStream, it depends on the digest the chunks were made with.
+	index.Index.FeatureFlags |= desync.TarFeatureFlags &^ desync.CaFormatSHA512256
 
 	// See if Tar encountered an error along the way
 	if tarErr != nil {
